@@ -90,6 +90,99 @@ func «MAIN» {
 `,
 }
 
+func init() {
+	// several goroutines validate DIFFERENT (struct type, interface) pairs for the first time at once
+	// (strict typing checks an argument against a parameter of interface type); names are unique per execution
+	probeNeutral["interface-first-conformance"] = `type «U»Shape interface {
+	Area() int
+	Tag() string
+}
+
+type «U»A struct {
+	a     int
+	onlyA int
+}
+
+func (v «U»A) Area() int {
+	return v.a * 2
+}
+
+func (v «U»A) Tag() string {
+	return "a"
+}
+
+type «U»B struct {
+	a     int
+	onlyB int
+}
+
+func (v «U»B) Area() int {
+	return v.a * 3
+}
+
+func (v «U»B) Tag() string {
+	return "bb"
+}
+
+type «U»C struct {
+	a     int
+	onlyC int
+}
+
+func (v «U»C) Area() int {
+	return v.a * 5
+}
+
+func (v «U»C) Tag() string {
+	return "ccc"
+}
+
+type «U»D struct {
+	a     int
+	onlyD int
+}
+
+func (v «U»D) Area() int {
+	return v.a * 7
+}
+
+func (v «U»D) Tag() string {
+	return "dddd"
+}
+
+func «U»use(s «U»Shape, k int) int {
+	return s.Area()*k + len(s.Tag())
+}
+
+func «MAIN» {
+	var mu sync.Mutex
+	var wg sync.WaitGroup
+	total := 0
+	for i := 0; i < 8; i++ {
+		wg.Add(1)
+		go func(id int) {
+			defer wg.Done()
+			v := 0
+			if id%4 == 0 {
+				v = «U»use(«U»A{a: id + 1}, 2)
+			} else if id%4 == 1 {
+				v = «U»use(«U»B{a: id + 1}, 2)
+			} else if id%4 == 2 {
+				v = «U»use(«U»C{a: id + 1}, 2)
+			} else {
+				v = «U»use(«U»D{a: id + 1}, 2)
+			}
+			mu.Lock()
+			total = total + v
+			mu.Unlock()
+		}(i)
+	}
+	wg.Wait()
+	«PRINT»("%d\n", total)
+«WAIT»}
+`
+}
+
 // ProbePrograms renders the directed probes with ids starting at firstID.
 func ProbePrograms(firstID int) []Prog {
 	var out []Prog
@@ -821,13 +914,117 @@ func (g *gen) sceneBank(id int) scene {
 	return scene{"bank", b.String()}
 }
 
+
+// sceneIface: a user interface type (1-3 methods), 2-4 struct types implementing it, a function with a
+// parameter of the interface type, and goroutines that call it with DIFFERENT concrete types for the first
+// time concurrently; comma-ok assertions back to the concrete types; interface values through a channel
+// whose receiver calls the interface-typed function again. All type names carry the «U» marker: the Go
+// rendering prefixes them like every other name, the Ego text gets a name that is unique per EXECUTION
+// (see uniqMarker), so the interpreter's process-wide (type, interface) conformance cache is cold every time.
+// (Ego's type switch is not used: `switch v := x.(type)` fails under `ego run` with "invalid or unsupported
+// data type" even sequentially, which is outside this property.)
+func (g *gen) sceneIface(id int) scene {
+	k, nt, nm := g.rng(2, 8), g.rng(2, 4), g.rng(1, 3)
+	g.nfun++
+	u := fmt.Sprintf("«U»%d", g.nfun)
+	iface := u + "Shape"
+	d := &g.decls
+	var b strings.Builder
+
+	g.feat("interface-parameter")
+	g.feat(fmt.Sprintf("interface-methods:%d", nm))
+	g.feat("go-closure-in-loop")
+	g.feat("chan-of-interface")
+	g.feat("type-assertion-comma-ok")
+	g.feat("closer-goroutine-after-waitgroup")
+	g.feat("recv-range")
+	g.gor += k + 1
+
+	fmt.Fprintf(d, "type %s interface {\n\tArea() int\n", iface)
+
+	if nm >= 2 {
+		d.WriteString("\tTag() string\n")
+	}
+
+	if nm >= 3 {
+		d.WriteString("\tScale(k int) int\n")
+	}
+
+	d.WriteString("}\n\n")
+
+	for t := 1; t <= nt; t++ {
+		tn := fmt.Sprintf("%sT%d", u, t)
+		// a field of its own keeps the struct types structurally distinct: Ego's x.(T) on struct types
+		// compares shape, not name (a sequential Ego/Go difference that is not this property's business)
+		fmt.Fprintf(d, "type %s struct {\n\ta int\n\tb int\n\tonly%d int\n}\n\n", tn, t)
+		fmt.Fprintf(d, "func (v %s) Area() int {\n\treturn (v.a*%d + v.b + %d) %% %d\n}\n\n", tn, g.rng(2, 9), g.rng(0, 20), []int{97, 251, 1009}[g.pick(3)])
+
+		if nm >= 2 {
+			fmt.Fprintf(d, "func (v %s) Tag() string {\n\treturn \"%s\"\n}\n\n", tn, strings.Repeat("t", t)+fmt.Sprint(t))
+		}
+
+		if nm >= 3 {
+			fmt.Fprintf(d, "func (v %s) Scale(k int) int {\n\treturn v.a*k + %d\n}\n\n", tn, g.rng(0, 9))
+		}
+	}
+
+	use, which := u+"use", u+"which"
+	body := "s.Area()*k"
+
+	if nm >= 2 {
+		body += " + len(s.Tag())"
+	}
+
+	if nm >= 3 {
+		body += " + s.Scale(k)"
+	}
+
+	fmt.Fprintf(d, "func %s(s %s, k int) int {\n\treturn %s\n}\n\n", use, iface, body)
+	fmt.Fprintf(d, "func %s(s %s) int {\n", which, iface)
+
+	for t := 1; t <= nt; t++ {
+		fmt.Fprintf(d, "\tc%d, ok%d := s.(%sT%d)\n\tif ok%d {\n\t\treturn c%d.a + %d\n\t}\n", t, t, u, t, t, t, t*1000)
+	}
+
+	d.WriteString("\treturn 7\n}\n\n")
+
+	fmt.Fprintf(&b, "\tvar mu sync.Mutex\n\tvar wg sync.WaitGroup\n\ttotal := 0\n\tch := «mk:%s:%d»\n", iface, []int{0, 1, 4}[g.pick(3)])
+	fmt.Fprintf(&b, "\tfor i := 0; i < %d; i++ {\n\t\twg.Add(1)\n\t\tgo func(id int) {\n\t\t\tdefer wg.Done()\n\t\t\tv := 0\n", k)
+
+	for t := 1; t <= nt; t++ {
+		cond := fmt.Sprintf("if id %% %d == %d {", nt, t-1)
+		if t > 1 {
+			cond = "} else " + cond
+		}
+
+		if t == nt && nt > 1 {
+			cond = "} else {"
+		}
+
+		tn := fmt.Sprintf("%sT%d", u, t)
+		fmt.Fprintf(&b, "\t\t\t%s\n\t\t\t\tv = %s(%s{a: id + %d, b: %d}, %d) + %s(%s{a: id, b: 1})\n\t\t\t\tch <- %s{a: id + %d, b: id}\n",
+			cond, use, tn, g.rng(1, 9), g.rng(0, 9), g.rng(1, 5), which, tn, tn, g.rng(0, 5))
+	}
+
+	b.WriteString("\t\t\t}\n\t\t\tmu.Lock()\n\t\t\ttotal = total + v\n\t\t\tmu.Unlock()\n\t\t}(i)\n\t}\n")
+	b.WriteString("\tgo func() {\n\t\twg.Wait()\n\t\tclose(ch)\n\t}()\n")
+	fmt.Fprintf(&b, "\tsum := 0\n\tcnt := 0\n\tfor x := range ch {\n\t\tsum = sum + %s(x, %d) + %s(x)\n\t\tcnt = cnt + 1\n\t}\n", use, g.rng(1, 4), which)
+	fmt.Fprintf(&b, "\twg.Wait()\n\tout := fmt.Sprintf(\"S%d iface total=%%d sum=%%d cnt=%%d\", total, sum, cnt)\n\treturn out\n", id)
+
+	return scene{"iface", b.String()}
+}
+
+// uniqMarker stands in the Ego text for a name prefix that the worker replaces by one that is unique
+// to the execution (the interpreter caches interface conformance per (type name, interface name)).
+const uniqMarker = "UNIQ0_"
+
 // GenProgram builds program number id from the PRNG.
 func GenProgram(r *rand.Rand, id int, avoid map[string]bool) Prog {
 	g := &gen{r: r, feats: map[string]bool{}, avoid: avoid}
 	ns := g.rng(1, 4)
 	var scenes []scene
 
-	makers := []func(int) scene{g.sceneMutex, g.sceneMutex, g.sceneFanIn, g.scenePool, g.scenePipeline, g.sceneNested, g.sceneRW, g.scenePingPong, g.sceneBank}
+	makers := []func(int) scene{g.sceneMutex, g.sceneMutex, g.sceneFanIn, g.scenePool, g.scenePipeline, g.sceneNested, g.sceneRW, g.scenePingPong, g.sceneBank, g.sceneIface, g.sceneIface}
 	for i := 0; i < ns; i++ {
 		scenes = append(scenes, makers[g.pick(len(makers))](i+1))
 	}
@@ -895,7 +1092,13 @@ func GenProgram(r *rand.Rand, id int, avoid map[string]bool) Prog {
 	sort.Strings(p.Features)
 	p.Features = dedupe(p.Features)
 
-	p.Types = []string{"dynamic", "dynamic", "strict", "relaxed"}[g.pick(4)]
+	p.Types = []string{"dynamic", "strict", "relaxed"}[g.pick(3)]
+
+	// interface conformance of arguments is only checked under strict typing
+	if g.feats["interface-parameter"] && g.pick(3) != 0 {
+		p.Types = "strict"
+	}
+
 	p.Opt = []int{2, 2, 0, 1, 3}[g.pick(5)]
 	p.Registers = g.pick(3) == 0
 	p.ConstFold = g.pick(3) == 0
@@ -932,6 +1135,7 @@ func dedupe(s []string) []string {
 // placeholders: «P» name prefix, «MAIN», «PRINT», «mk:T:N» make(chan), «ch:T» channel type.
 func renderEgo(neutral string) string {
 	s := strings.ReplaceAll(neutral, "«P»", "")
+	s = strings.ReplaceAll(s, "«U»", uniqMarker)
 	s = strings.ReplaceAll(s, "«MAIN»", "main()")
 	s = strings.ReplaceAll(s, "«PRINT»", "fmt.Printf")
 	// every goroutine of the program has been joined or has signalled; @wait lets the ones that
@@ -955,6 +1159,7 @@ func renderEgo(neutral string) string {
 func renderGo(neutral string, id int) string {
 	prefix := fmt.Sprintf("p%d_", id)
 	s := strings.ReplaceAll(neutral, "«P»", prefix)
+	s = strings.ReplaceAll(s, "«U»", prefix+"u")
 	s = strings.ReplaceAll(s, "«MAIN»", prefix+"main(w io.Writer)")
 	s = strings.ReplaceAll(s, "«PRINT»(", "fmt.Fprintf(w, ")
 	s = strings.ReplaceAll(s, "«WAIT»", "")
